@@ -306,6 +306,8 @@ struct Driver
 			if (f < 0 || !n) break;
 			int i1 = c.rng.range(0, n - 1), i2 = c.rng.range(i1 + 1, n);
 			bool omit = c.rng.chance(0.2);
+			// an empty slice strictly inside the array (i1 == i2 > 0); slice(0,0) is the documented "to the end" form and is left out
+			if (!omit && i1 > 0 && c.rng.chance(0.2)) { i2 = i1; c.count("slice.empty-inside"); }
 			c.op(omit ? vf::fmt("h%d=h%d.slice(%d)", f, k, i1) : vf::fmt("h%d=h%d.slice(%d,%d)", f, k, i1, i2));
 			std::vector<int> r(m.begin() + i1, omit ? m.end() : m.begin() + i2);
 			setnew(f, omit ? a.slice(i1) : a.slice(i1, i2), r);
@@ -353,6 +355,17 @@ struct Driver
 			c.op(vf::fmt("h%d=h%d.filter(v%%%d==0)", f, k, mod));
 			std::vector<int> r;
 			for (int j = 0; j < n; j++) if (m[j] % mod == 0) r.push_back(m[j]);
+			if (c.rng.chance(0.4)) {
+				// a predicate with memory ("the first few matches"): it is asked once per element, in order
+				int keep = c.rng.range(0, 3), seen = 0;
+				r.clear();
+				{ int s2 = 0; for (int j = 0; j < n; j++) if (m[j] % mod == 0 && s2++ < keep) r.push_back(m[j]); }
+				c.op(vf::fmt("h%d=h%d.filter(first %d with v%%%d==0)", f, k, keep, mod));
+				setnew(f, a.filter([&, mod, keep](const T& x) { return E<T>::val(x) % mod == 0 && seen++ < keep; }), r);
+				c.count("filter.stateful-predicate");
+				verify("filter-stateful");
+				break;
+			}
 			setnew(f, a.filter([=](const T& x) { return E<T>::val(x) % mod == 0; }), r);
 			verify("filter");
 			break;
@@ -601,9 +614,44 @@ template<class T> static void hist(vf::Ctx& c) { run_hist<T>(c, 0); }
 template<class T> static void shared(vf::Ctx& c) { run_hist<T>(c, 1); }
 template<class T> static void selfref(vf::Ctx& c) { run_hist<T>(c, 2); }
 
+// ------------------------------------------------------------------ arrays of a recursive element type: a handle that walks down the tree
+struct TreeNode { Counted tag; Array<TreeNode> kids; };
+
+static void run_nested(vf::Ctx& c)
+{
+	Counted::reset();
+	int depth = c.rng.range(2, 7), width = c.rng.range(1, 3);
+	c.desc(vf::fmt("Array<Node{tag, Array<Node> kids}> chain of depth %d, width %d: cur = root; then cur = cur[k].kids until the leaves, cur the only owner", depth, width));
+	{
+		// build bottom-up
+		Array<TreeNode> level;
+		for (int d = depth; d > 0; d--) {
+			Array<TreeNode> up;
+			for (int w = 0; w < width; w++) { TreeNode nd; nd.tag = E<Counted>::mk(d * 10 + w); nd.kids = (w == 0) ? level : Array<TreeNode>(); up << nd; }
+			level = up;
+		}
+		Array<TreeNode> cur = level;
+		level = Array<TreeNode>();   // cur is now the only owner of the root array
+		int d = 1;
+		while (cur.length() > 0) {
+			if (E<Counted>::val(cur[0].tag) != d * 10 || !E<Counted>::intact(cur[0].tag)) { c.fail("nested.content", vf::fmt("level %d holds tag %d", d, E<Counted>::val(cur[0].tag))); break; }
+			c.op(vf::fmt("cur = cur[0].kids (level %d)", d));
+			cur = cur[0].kids;   // the source handle lives inside the block cur is about to release
+			d++;
+		}
+		if (d != depth + 1) c.fail("nested.depth", vf::fmt("walked %d levels of %d", d - 1, depth));
+	}
+	if (Counted::err) c.fail(std::string("counted.") + Counted::err, "nested");
+	if (Counted::nlive != 0) c.fail("counted.elements-alive-after-last-handle-dropped", vf::fmt("%d", Counted::nlive));
+	c.evals(depth);
+	c.distinct(vf::mix((uint64_t)depth * 8 + width, 0xC01));
+	if (c.want_sample()) c.sample(c.curdesc());
+}
+
 int main(int argc, char** argv)
 {
 	vf::Runner R;
+	R.add("nested", run_nested, "recursive element type: a sole-owner handle assigned from a handle stored inside its own block");
 	R.add("hist_int", hist<int>, "stratum A histories, int elements");
 	R.add("hist_counted", hist<Counted>, "stratum A histories, counted elements");
 	R.add("hist_string", hist<String>, "stratum A histories, String elements");
